@@ -461,7 +461,14 @@ def judge(case, res):
             shown = text if len(text) < 400 else text[:200] + ' ... ' + text[-180:]
 
             if sink == 'lineage-facets':
-                add('C15/lineage-facets-unmasked', f'the START facets given to the lineage emitter contain the password: {shown}')
+                import re as _re
+
+                # a credential that is still visible after every scheme://user:pw@ form in the text has been blanked was split
+                # off its scheme by the filter's own normalisation (a different root cause than "facets are not masked")
+                if _has_marker(_re.sub(r'[a-zA-Z][a-zA-Z0-9+\-.]*://[^@\s\'"]*@', '', text)):
+                    add('C15/decomposed-uri-keeps-credentials', f'the START facets given to the lineage emitter contain the password of a URI the filter split into parts: {shown}')
+                else:
+                    add('C15/lineage-facets-unmasked', f'the START facets given to the lineage emitter contain the password: {shown}')
 
                 continue
 
